@@ -92,23 +92,23 @@ UNIT = {
          'name': 'for_iteration', 'props': P, 'auto_props': A, 'loops': 0,
          'closure_header': r'self\.feel_iterator\.run\(\|ctx\| \{',
          'signature': 'pub fn for_iteration(scope: &mut Scope, evaluator: &Evaluator, name_partial: &Name, results: &mut Vec<Value>, ctx: &FeelContext)',
-         'rewrites': [('RX', 'R8e', r'\bevaluator\(scope\)', 'evaluator.call(scope)', 1), ('RX', 'R4c', r'&self\.name_partial', 'name_partial', 1)],
+         'rewrites': [('RX', 'R8e', r'\bevaluator\(scope\)', 'evaluator.call(scope)', None), ('RX', 'R4c', r'&self\.name_partial', 'name_partial', 1)],
          'ensures': [('caller_scope_untouched', STACK_SAME)]},
         {'kind': 'closure', 'src': I, 'path': 'impl SomeExpressionEvaluator::fn evaluate', 'key': 'purity::SomeExpressionEvaluator::evaluate#iteration',
          'name': 'some_iteration', 'props': P, 'auto_props': A, 'loops': 0,
          'closure_header': r'self\.feel_iterator\.run\(\|ctx\| \{',
          'signature': 'pub fn some_iteration(scope: &mut Scope, evaluator: &Evaluator, result: &mut bool, ctx: &FeelContext)',
-         'rewrites': [('RX', 'R8e', r'\bevaluator\(scope\)', 'evaluator.call(scope)', 1), ('RX', 'R4c', r'result = result \|\| value;', '*result = *result || value;', 1)],
+         'rewrites': [('RX', 'R8e', r'\bevaluator\(scope\)', 'evaluator.call(scope)', None), ('RX', 'R4c', r'result = result \|\| value;', '*result = *result || value;', 1)],
          'ensures': [('caller_scope_untouched', STACK_SAME)]},
         {'kind': 'closure', 'src': I, 'path': 'impl EveryExpressionEvaluator::fn evaluate', 'key': 'purity::EveryExpressionEvaluator::evaluate#iteration',
          'name': 'every_iteration', 'props': P, 'auto_props': A, 'loops': 0,
          'closure_header': r'self\.feel_iterator\.run\(\|ctx\| \{',
          'signature': 'pub fn every_iteration(scope: &mut Scope, evaluator: &Evaluator, result: &mut bool, ctx: &FeelContext)',
-         'rewrites': [('RX', 'R8e', r'\bevaluator\(scope\)', 'evaluator.call(scope)', 1), ('RX', 'R4c', r'result = result && value;', '*result = *result && value;', 1)],
+         'rewrites': [('RX', 'R8e', r'\bevaluator\(scope\)', 'evaluator.call(scope)', None), ('RX', 'R4c', r'result = result && value;', '*result = *result && value;', 1)],
          'ensures': [('caller_scope_untouched', STACK_SAME)]},
         {'kind': 'closure', 'src': B, 'path': 'fn build_context', 'name': 'context_literal', 'key': 'purity::build_context', 'props': P, 'auto_props': A, 'loops': 1, 'ret': 'r',
          'lead_params': ['scope: &mut Scope'], 'extra_params': ['evaluators: &Vec<Evaluator>'],
-         'rewrites': [('R3',), ('RX', 'R8e', r'\bevaluator\(scope\)', 'evaluator.call(scope)', 1),
+         'rewrites': [('R3',), ('RX', 'R8e', r'\bevaluator\(scope\)', 'evaluator.call(scope)', None),
                       ('RX', 'R11', r'FeelContext::default\(\)', 'feel_context_default()', None),
                       ('RX', 'R2v', r'for evaluator in &evaluators \{', 'for evaluator in evaluators.iter() {', 1)],
          'ensures': [('caller_scope_untouched', STACK_SAME)],
@@ -116,7 +116,7 @@ UNIT = {
          },
         {'kind': 'closure', 'src': M, 'path': 'fn build_context_evaluator', 'name': 'boxed_context', 'key': 'purity::model::build_context_evaluator', 'props': P, 'auto_props': A, 'loops': 1, 'ret': 'r',
          'lead_params': ['scope: &mut Scope'], 'extra_params': ['entry_evaluators: &Vec<(Option<Name>, Evaluator)>'],
-         'rewrites': [('RX', 'R8e', r'\bevaluator\(scope\)', 'evaluator.call(scope)', 2),
+         'rewrites': [('RX', 'R8e', r'\bevaluator\(scope\)', 'evaluator.call(scope)', None),
                       ('RX', 'R11', r'FeelContext::default\(\)', 'feel_context_default()', None),
                       ('RX', 'R2v', r'for \(opt_name, evaluator\) in &entry_evaluators \{', 'for (opt_name, evaluator) in entry_evaluators.iter() {', 1)],
          'ensures': [('caller_scope_untouched', STACK_SAME)],
